@@ -58,6 +58,9 @@ pub enum ExecStep {
     LazyRemove(u8, Sel),
     /// a chain of n closures, each queued by the one before it while it runs (one maintain must run them all)
     Chain(u8),
+    /// the closure calls World::maintain itself (always its last step): deferred creations / deletions take
+    /// effect there and the rest of the queue runs inside that call, in order, exactly once
+    MaintainInside,
 }
 
 #[derive(Clone, Debug, Serialize, Deserialize, Hash, PartialEq, Eq)]
@@ -134,6 +137,7 @@ enum RStep {
     Nested(RExec),
     LazyInsert(usize, Entity, u32),
     LazyRemove(usize, Entity),
+    MaintainInside,
 }
 
 #[derive(Clone, Debug)]
@@ -187,6 +191,7 @@ pub struct Facts {
     pub lazy_actions_run: u32,
     pub lazy_nested: u32,
     pub lazy_chain_over_64: u32,
+    pub maintain_inside_closure: u32,
     pub lazy_dead_target: u32,
     pub lazy_reused_target: u32,
     pub max_queue_in_one_maintain: u32,
@@ -615,7 +620,12 @@ fn lazy_insert<C: ZooComp>(world: &World, e: Entity, payload: u32) -> Ident {
 fn lazy_insert_all<C: ZooComp>(world: &World, items: &[(Entity, u32)]) -> Vec<Ident> {
     let vals: Vec<(Entity, C)> = items.iter().map(|(e, p)| (*e, C::make(*p))).collect();
     let ids = vals.iter().map(|(_, c)| c.ident()).collect();
-    world.read_resource::<LazyUpdate>().insert_all(vals);
+    // the batch arrives as a Vec or as an iterator that cannot promise any element up front
+    if items.len() % 2 == 0 {
+        world.read_resource::<LazyUpdate>().insert_all(vals);
+    } else {
+        world.read_resource::<LazyUpdate>().insert_all(vals.into_iter().filter(|_| true));
+    }
     ids
 }
 
@@ -662,6 +672,9 @@ fn run_body(world: &mut World, kinds: &Arc<Vec<Kind>>, body: RExec, log: &Log) {
                     .collect();
                 let masks: Vec<Vec<u32>> = kinds.iter().map(|k| with_kind!(*k, st_mask(world))).collect();
                 log.lock().unwrap().push(LogEntry::Observed(obs, masks));
+            }
+            RStep::MaintainInside => {
+                world.maintain();
             }
             RStep::CreateAtomic => {
                 let e = world.entities().create();
@@ -1091,6 +1104,9 @@ impl Interp {
                     self.kill(hi);
                 } else {
                     self.facts.stale_delete += 1;
+                    for slot in 0..self.kinds.len() {
+                        self.check_slot_index("C03", slot, e.id(), "a deletion through a dead handle")?;
+                    }
                 }
                 self.note(|| format!("delete_now {:?} -> {:?}", e, r.is_ok()));
             }
@@ -1138,8 +1154,15 @@ impl Interp {
                 if expect.is_err() {
                     self.facts.failing_batch += 1;
                 }
+                let dead_named: Vec<Entity> = his.iter().filter(|h| !self.alive(**h)).map(|h| self.handles[*h].e).collect();
                 for hi in to_kill {
                     self.kill(hi);
+                }
+                // a dead handle named in a batch is refused; whoever sits on its index now keeps everything
+                for e in dead_named {
+                    for slot in 0..self.kinds.len() {
+                        self.check_slot_index("C03", slot, e.id(), "a batch deletion that names a dead handle")?;
+                    }
                 }
                 self.note(|| format!("delete_batch {:?} -> {:?}", es, r.as_ref().map_err(|(_, k)| *k)));
             }
@@ -1616,6 +1639,10 @@ impl Interp {
                     (Some(a), Some(h)) => Some(RStep::LazyInsert(a, self.handles[h].e, *p)),
                     _ => None,
                 },
+                ExecStep::MaintainInside => {
+                    self.facts.maintain_inside_closure += 1;
+                    Some(RStep::MaintainInside)
+                }
                 ExecStep::Chain(n) => {
                     if depth == 0 {
                         let ids: Vec<u32> = (0..*n)
@@ -1647,7 +1674,11 @@ impl Interp {
                 },
             };
             if let Some(r) = r {
+                let last = matches!(r, RStep::MaintainInside);
                 out.push(r);
+                if last {
+                    break;
+                }
             }
         }
         RExec { id, steps: out }
@@ -1722,12 +1753,9 @@ impl Interp {
         Ok(())
     }
 
-    fn maintain(&mut self) -> Verdict {
-        ensure!("C09", "ran-before-maintain", self.log.lock().unwrap().is_empty(),
-            "lazy actions ran before maintain: {:?}", self.log.lock().unwrap());
-        self.wm().maintain();
-        self.facts.maintains += 1;
-        // model: merge
+    /// Model of the first half of maintain: deferred creations become merged, requested deletions take
+    /// effect (with their component purge).
+    fn model_merge(&mut self) {
         let pend: Vec<usize> = (0..self.handles.len())
             .filter(|i| matches!(self.handles[*i].state, HState::Live { pending: true, .. }))
             .collect();
@@ -1740,6 +1768,15 @@ impl Interp {
             self.kill(hi);
         }
         self.dead_since_maintain.clear();
+    }
+
+    fn maintain(&mut self) -> Verdict {
+        ensure!("C09", "ran-before-maintain", self.log.lock().unwrap().is_empty(),
+            "lazy actions ran before maintain: {:?}", self.log.lock().unwrap());
+        self.wm().maintain();
+        self.facts.maintains += 1;
+        // model: merge
+        self.model_merge();
         // model: lazy queue
         let log: Vec<LogEntry> = std::mem::take(&mut *self.log.lock().unwrap());
         let mut cur = 0usize;
@@ -1880,6 +1917,10 @@ impl Interp {
                             RStep::LazyRemove(slot, h) => {
                                 queue.push_back(QItem::Remove { slot, e: h });
                                 self.facts.lazy_nested += 1;
+                            }
+                            RStep::MaintainInside => {
+                                // the nested maintain merges, purges, and then runs the rest of the queue
+                                self.model_merge();
                             }
                         }
                     }
@@ -2156,6 +2197,7 @@ fn exec_steps(depth: u32) -> BoxedStrategy<Vec<ExecStep>> {
         1 => (0u8..8, sel(), 1u32..1000).prop_map(|(s, h, p)| ExecStep::LazyInsert(s, h, p)),
         1 => (0u8..8, sel()).prop_map(|(s, h)| ExecStep::LazyRemove(s, h)),
         1 => prop_oneof![1u8..8, 60u8..140].prop_map(ExecStep::Chain),
+        1 => Just(ExecStep::MaintainInside),
     ];
     if depth == 0 {
         proptest::collection::vec(leaf, 0..4).boxed()
